@@ -366,7 +366,6 @@ class Gen:
         for e in self.entries:
             self.entry_ids.append(self.occ(e))
         rs = ["// @generated by tools/gen_catalogue.py - do not edit",
-              "#![allow(clippy::all)]",
               "use crate::rt::{bump, designated, loc_rv, log_call, log_ret_err, log_ret_ok, new_fn_err, rv, str_rv, strs_rv, FnErr, RecErr, RecErr2, ToJ, P, W};",
               "use crate::core::{go, go_rec, Done};",
               "use crate::ov::OV;",
@@ -399,19 +398,22 @@ def strip_node(n):
     return m
 
 
-def generate(extra_defs=(), extra_entries=(), write=True):
+def generate(extra_defs=(), extra_entries=(), write=True, out_rs=None, out_json=None):
+    """base catalogue (+ extra definitions / entries).  Without out_rs / out_json the committed files are (re)written."""
     g = Gen(list(C.DEFS) + list(extra_defs), list(C.ENTRIES) + list(extra_entries))
     rust = g.run()
     table = {"nodes": [strip_node(n) for n in g.nodes], "entries": g.entry_ids}
     if write:
         os.makedirs(os.path.join(V, "catalogue"), exist_ok=True)
-        p = os.path.join(os.environ.get("VERIF_HARNESS_DIR", os.path.join(V, "harness")), "dh", "src", "gen_cat.rs")
+        p = out_rs or os.path.join(os.environ.get("VERIF_HARNESS_DIR", os.path.join(V, "harness")), "dh", "src", "gen_cat.rs")
         old = open(p).read() if os.path.exists(p) else None
         if old != rust:
+            os.makedirs(os.path.dirname(p), exist_ok=True)
             open(p, "w").write(rust)
         cj = json.dumps(table, sort_keys=True)
-        pj = os.path.join(V, "catalogue", "catalogue.json")
+        pj = out_json or os.path.join(V, "catalogue", "catalogue.json")
         if not os.path.exists(pj) or open(pj).read() != cj:
+            os.makedirs(os.path.dirname(pj), exist_ok=True)
             open(pj, "w").write(cj)
     return g, table
 
